@@ -258,3 +258,85 @@ Proof.
   assert (COther tag = CFinal) as E by (eapply cache_classified_safe; [exact H | left; reflexivity | exact Hr]).
   discriminate.
 Qed.
+
+(* ------------------------------------------------------------------ progress: threads do return *)
+
+Definition remaining (t : tstate) : nat := match t with Running r => S (length r) | Done _ => 0 end.
+
+Lemma cstep_remaining : forall s t, remaining (snd (cstep s t)) < remaining t \/ remaining t = 0.
+Proof.
+  intros s t. destruct t as [r|v]; [|right; reflexivity]. left.
+  destruct r as [|a r]; [cbn; lia|].
+  destruct a as [ | v | | ]; cbn [cstep]; try (cbn; lia).
+  destruct s; cbn; lia.
+Qed.
+
+Lemma nth_error_set_nth_same : forall A (l : list A) i x y,
+    nth_error l i = Some y -> nth_error (set_nth l i x) i = Some x.
+Proof.
+  induction l as [|z l IH]; intros i x y H; destruct i; cbn in *; try discriminate; auto.
+  eapply IH; eauto.
+Qed.
+
+Lemma nth_error_set_nth_other : forall A (l : list A) i j x,
+    i <> j -> nth_error (set_nth l i x) j = nth_error l j.
+Proof.
+  induction l as [|z l IH]; intros i j x H; destruct i, j; cbn; auto; try congruence.
+Qed.
+
+(* every step of thread i shortens what it has left; steps of other threads do not touch it *)
+Lemma crun_progress : forall sched s ts i t,
+    nth_error ts i = Some t ->
+    exists t', nth_error (snd (crun sched s ts)) i = Some t' /\
+               remaining t' + count_occ Nat.eq_dec sched i <= remaining t \/
+               (nth_error (snd (crun sched s ts)) i = Some t' /\ remaining t' = 0).
+Proof.
+  induction sched as [|j sched IH]; intros s ts i t Hi.
+  - exists t. left. split; [exact Hi|cbn; lia].
+  - cbn [crun]. destruct (nth_error ts j) as [tj|] eqn:Hj.
+    + destruct (cstep s tj) as [s' tj'] eqn:Hstep.
+      destruct (Nat.eq_dec j i) as [->|Hne].
+      * rewrite Hi in Hj. injection Hj as <-.
+        assert (Hi' : nth_error (set_nth ts i tj') i = Some tj') by (eapply nth_error_set_nth_same; exact Hi).
+        destruct (IH s' (set_nth ts i tj') i tj' Hi') as [t' [[Hn Hle]|[Hn Hz]]].
+        -- exists t'. pose proof (cstep_remaining s t) as Hrem. rewrite Hstep in Hrem. cbn [snd] in Hrem.
+           cbn [count_occ]. destruct (Nat.eq_dec i i) as [_|C]; [|congruence].
+           destruct Hrem as [Hlt|Hz].
+           ++ left. split; [exact Hn|lia].
+           ++ right. split; [exact Hn|]. destruct t as [r|v]; [cbn in Hz; discriminate|].
+              cbn [cstep] in Hstep. injection Hstep as <- <-. cbn in Hle. lia.
+        -- exists t'. right. split; assumption.
+      * assert (Hi' : nth_error (set_nth ts j tj') i = Some t) by (rewrite nth_error_set_nth_other; assumption).
+        destruct (IH s' (set_nth ts j tj') i t Hi') as [t' [[Hn Hle]|[Hn Hz]]].
+        -- exists t'. left. split; [exact Hn|]. cbn [count_occ]. destruct (Nat.eq_dec j i); [congruence|lia].
+        -- exists t'. right. split; assumption.
+    + destruct (Nat.eq_dec j i) as [->|Hne]; [rewrite Hi in Hj; discriminate|].
+      destruct (IH s ts i t Hi) as [t' [[Hn Hle]|[Hn Hz]]].
+      * exists t'. left. split; [exact Hn|]. cbn [count_occ]. destruct (Nat.eq_dec j i); [congruence|lia].
+      * exists t'. right. split; assumption.
+Qed.
+
+Lemma remaining_zero_done : forall t, remaining t = 0 -> exists r, t = Done r.
+Proof. intros [r|v] H; [cbn in H; discriminate|eauto]. Qed.
+
+(* total correctness: whatever the other threads do and however the steps are interleaved, a thread that
+   is scheduled often enough (its protocol's length + 1 times) has returned, and it has returned the
+   completely computed value *)
+Theorem cache_final_complete : forall ps sched s i p,
+    forallb stores_final ps = true -> slot_ok s ->
+    nth_error ps i = Some p ->
+    S (length p) <= count_occ Nat.eq_dec sched i ->
+    cresult (crun sched s (cstart ps)) i = Some CFinal.
+Proof.
+  intros ps sched s i p Hps Hs Hp Hcount.
+  assert (Hi : nth_error (cstart ps) i = Some (Running p)).
+  { unfold cstart. rewrite nth_error_map, Hp. reflexivity. }
+  destruct (crun_progress sched s (cstart ps) i (Running p) Hi) as [t' [[Hn Hle]|[Hn Hz]]].
+  - cbn [remaining] in Hle. assert (Hz : remaining t' = 0) by lia.
+    destruct (remaining_zero_done t' Hz) as [r ->].
+    assert (Hr : cresult (crun sched s (cstart ps)) i = Some r) by (unfold cresult; rewrite Hn; reflexivity).
+    rewrite Hr. f_equal. eapply cache_final_safe; eassumption.
+  - destruct (remaining_zero_done t' Hz) as [r ->].
+    assert (Hr : cresult (crun sched s (cstart ps)) i = Some r) by (unfold cresult; rewrite Hn; reflexivity).
+    rewrite Hr. f_equal. eapply cache_final_safe; eassumption.
+Qed.
